@@ -21,7 +21,7 @@ RULE = ('grid points per function: DATE(y,m,d) y in {1904,1999,2000,2023,2024,21
         'normalisation (month outside 1..12 or day outside the month), or crosses a month end / leap day / year end, or the '
         'interval is reversed or contains a holiday on a working day; distinct = distinct (function, arguments)')
 ASSUMPTIONS = ['years 1904..9999 only; results before 1900-03-01 not generated; DATEDIF with start > end and units MD/YD not asserted',
-               'dates are supplied as date-times at midnight (what a workbook stores)',
+               'dates are supplied as date-times at midnight (what a workbook stores) or, every third point, as plain dates',
                'TODAY is accepted if it equals the local date read before or after the call']
 
 DT = datetime.datetime
@@ -125,6 +125,10 @@ def ev(keys, **cells):
         return {k: tr.get('S', ADDR[k], '1', ex) for k in keys}
     ex = tr.executor()
     cl = []
+    if sum(map(ord, repr(sorted(cells.items(), key=str)))) % 3 == 0:
+        # every third point supplies its dates as plain dates (midnight date-times become datetime.date): the same day either way
+        cells = {k: ([h.date() if isinstance(h, datetime.datetime) and h.time() == datetime.time(0) else h for h in v] if k == 'H' else
+                     v.date() if isinstance(v, datetime.datetime) and v.time() == datetime.time(0) else v) for k, v in cells.items()}
     for name, v in cells.items():
         if name == 'H':
             for i, h in enumerate(v):
